@@ -790,8 +790,10 @@ def configs(ctx: core.Ctx) -> list[tuple[Model, int]]:
                   groups=["adv", "advd", "rm", "rmd"], shared_manager=True)
     # every identity (attester included) on a legacy curve: ECDSA signatures are randomised, so nothing may identify an
     # attestation, token or metadata by signing it again
+    # (no `remeta` here: with two metadata objects the library's iteration order follows the hash of the random
+    # signature bytes, and two executions of one history could legitimately differ)
     legacy = _cfg(hashes=1, names=1, reg_keys=["B"], reg_md=[0], req_subjects=["B"], req_extra=[0], time=[299],
-                  groups=["replay", "remeta"], max_replay=2, curve="low")
+                  groups=["replay"], max_replay=2, curve="low")
     # a disclosure that withholds the token underneath the credential, the rest handed in after the five minutes
     withheld = _cfg(hashes=1, names=1, reg_keys=["D"], reg_md=[0], req_subjects=[], req_extra=[], time=[299, 301],
                     groups=["withheld"])
@@ -1008,7 +1010,10 @@ def run(ctx: core.Ctx) -> core.Report:
                      "transitions_per_event_kind": r["transitions_per_event_kind"],
                      "transitions_with_judged_send_by_verdict": r["transitions_with_verdict"]})
         samples.extend(r["samples"])
-        _self_check(model, r["samples"])
+        if model.cfg.get("curve", "curve25519") == "curve25519":
+            _self_check(model, r["samples"])
+        # (legacy curves sign with a random nonce: with two credentials in play the library's iteration order follows the
+        # hash of random bytes, so two executions of one history may legitimately differ; every execution is still judged)
         for v in r["violations"]:
             if v.key in seen_keys:
                 continue
